@@ -184,6 +184,15 @@ def main():
         return False
     case("api history: logged argument differs from the call", api, "TraceCircuit", m_api_arg, "C09")
 
+    def m_api_pol(evs):
+        for e in evs:
+            if e["e"] == "Api" and e["kind"] == "setCellRowPolarity" and e["outcome"] == "ok":
+                c = e["circ"]["cells"][0]
+                c["p"] = "SAME" if c["p"] != "SAME" else "ANY"
+                return True
+        return False
+    case("api history: stored polarity differs from the given one", api, "TraceCircuit", m_api_pol, "C04")
+
     free = record("record", "rel", "free", 12, {}, d, "free")
 
     def m_use(evs):
